@@ -835,7 +835,7 @@ def gen_group_mix_scenario(rng: random.Random) -> dict:
     Steps for the same time and a smaller sub-step than the one a simulator is waiting for, from unrelated sources."""
     g = rng.choice([[0], [0], [0, 0]])
     k = rng.choice([2, 2, 3])
-    late = rng.random() < 0.5
+    late = rng.random() < 0.6
     sims = [{"type": "event-based" if late else rng.choice(["event-based", "hybrid"]), "group": list(g), "init_ev": None} for _ in range(k)]
     if sims[0]["type"] == "event-based":
         sims[0]["init_ev"] = rng.choice([0, 0, 1])
@@ -847,13 +847,14 @@ def gen_group_mix_scenario(rng: random.Random) -> dict:
         connects.append(conn(i, (i + 1) % k, weak=(i == k - 1)))
     n = k
     outside = None
-    if rng.random() < 0.8:
+    feeds_monitor = False
+    if rng.random() < 0.9:
         sims.append({"type": "time-based", "group": [], "init_ev": None})      # outside, slow or fast
         outside = n
         n += 1
         if rng.random() < 0.5:
             connects.append(conn(outside, 0, sattr=2))                          # feeds the loop
-    if rng.random() < 0.8:
+    if rng.random() < 0.9:
         sims.append({"type": rng.choice(["event-based", "event-based", "hybrid"]), "group": list(g), "init_ev": None})   # monitor inside the group
         mon = n
         n += 1
@@ -861,8 +862,9 @@ def gen_group_mix_scenario(rng: random.Random) -> dict:
         if late:
             c["seid"], c["sattr"] = 1, 2          # the loop's late "result" (see make_script)
         connects.append(c)
-        if outside is not None and rng.random() < 0.8:
+        if outside is not None and rng.random() < 0.9:
             connects.append(conn(outside, mon, sattr=2))
+            feeds_monitor = True
     if rng.random() < 0.3:
         sims.append({"type": "event-based", "group": list(g[:-1]), "init_ev": None})      # observer one level up
         connects.append(conn(rng.randrange(k), n))
@@ -884,6 +886,9 @@ def gen_group_mix_scenario(rng: random.Random) -> dict:
           "lazy": rng.random() < 0.5, "cache": rng.random() < 0.5, "beh_seed": rng.randrange(10 ** 9),
           "sparse_persistent": False, "future_outputs": rng.random() < 0.4, "loop_len": rng.choice([2, 2, 3]) if late else rng.choice([1, 2, 2, 3]),
           "late_result": late}
+    if feeds_monitor and rng.random() < 0.5:
+        # the outside feeder answers late: the monitor is first scheduled by the loop (a positive sub-step), then for sub-step 0
+        sc["slow"] = outside
     return normalise(sc)
 
 
